@@ -409,8 +409,20 @@ def run(res, tier, seed, model_ok, search):
     run_pure(res, tier, seed, model_ok, search)
     run_instances(res, tier, seed, model_ok, search)
     uniqueness(res, tier, search)
+    # live mode (the histories of C11: requests, responses and order-stream snapshots interleave, replaced bets keep the reference of
+    # the bet they replace): an update is never attributed to another order
+    from props import C11
+    sub = C11.live_findings(tier, seed, search)
+    res.evaluations += sub.evaluations
+    res.distribution["live-histories"] += sub.evaluations
+    for v in sub.violations:
+        if v["signature"] in ("update-misattributed", "live-processing-crashed"):
+            res.violations.append(v)
 
 
 def replay(payload):
+    if payload.get("signature") in ("update-misattributed", "live-processing-crashed"):
+        from props import C11
+        return C11.replay(payload)        # a live-domain history
     print("failing input:", payload.get("replay"))
     return 1
